@@ -113,7 +113,7 @@ def _task(t):
             k = common.sig_hash(sig)
             if k not in viols:
                 viols[k] = {"sig": sig, "count": 0, "what": "trace %s: %s" % (e5.spec_str(spec, p), text),
-                            "case": {"spec": spec}}
+                            "case": {"spec": e5.compact(spec)}}
             viols[k]["count"] += 1
     return {"st": st, "viols": viols, "shapes": shapes}
 
@@ -200,6 +200,9 @@ def run(ctx):
     p = BN = __import__("pv.recorder", fromlist=["BN128"]).BN128
     traces = e5.traces(1 if ctx.thorough else 0, p)
     random.Random(ctx.seed).shuffle(traces)
+    # large traces: more than 8192 wires / 4096 private variables / 4096 constraints / 64 KiB per section
+    # (thorough: more than 65535 of each)
+    traces = [e5.big_trace(9001, 4500, p), e5.big_trace(300, 1200, p)] + ([e5.big_trace(70001, 66000, p)] if ctx.thorough else []) + traces
     nchunks = common.NCPU * 4
     chunks = [traces[i::nchunks] for i in range(nchunks)]
     results = common.pool_map(_task, [(c, p) for c in chunks if c], init=_init)
@@ -231,7 +234,7 @@ def run(ctx):
                        "2^256+5,-(p+3)) followed by 0..2 constraints whose three sides range over a menu of 2-13 linear "
                        "combinations (zero, one, variables, sums, zero coefficients, cancelled terms, coefficients >= p, "
                        "negative and > 256-bit coefficients); every trace is serialised by the backend's prove() and decoded; "
-                       "plus every E1 depth-1 program traced through the real backend; states = distinct (npub, npriv, "
+                       "plus generated large traces (9001 variables / 4500 constraints; thorough 70001 / 66000); plus every E1 depth-1 program traced through the real backend; states = distinct (npub, npriv, "
                        "nconstraints) shapes")
     ctx.sample({"trace": e5.spec_str(traces[0], p)})
     ctx.sample({"trace": e5.spec_str(traces[len(traces) // 2], p)})
@@ -246,8 +249,7 @@ def replay(case):
              "cons1": [tuple(c) for c in h["cons1"]], "cons2": [tuple(c) for c in h["cons2"]]}
         r = _task2(([h], p))
         return {"history": h, "violations": [{"klass": v["sig"]["klass"], "what": v["what"]} for v in r["viols"].values()]}
-    spec = case["spec"]
-    spec = {"vars": [tuple(v) for v in spec["vars"]], "cons": [tuple(c) for c in spec["cons"]]}
+    spec = e5.expand(case["spec"], p)
     _reset()
     e5.build(_B, spec, p)
     _B.prove()
